@@ -200,10 +200,11 @@ impl Reloc for FixedSizeCountingBitSet<3> {
 
 pub struct ContainerUnderTest {
     c: FixedSizeContainer<u32, 2>,
+    handles: [Option<ContainerHandle>; 2],
 }
 
 impl Reloc for ContainerUnderTest {
-    unsafe fn mk(at: *mut Self) { at.write(ContainerUnderTest { c: FixedSizeContainer::new() }) }
+    unsafe fn mk(at: *mut Self) { at.write(ContainerUnderTest { c: FixedSizeContainer::new(), handles: [None, None] }) }
     fn op(&mut self, code: u8, arg: u64) -> u64 {
         let owner = OwnerId::new(5).unwrap();
         if code & 1 == 0 {
@@ -211,16 +212,25 @@ impl Reloc for ContainerUnderTest {
                 Ok((p, h)) => {
                     let v = unsafe { *p };
                     assert!(v == arg as u32, "c14: container slot does not hold the added value");
+                    assert!(h.index() < 2 && self.handles[h.index()].is_none(), "c14: container slot handed out twice");
+                    self.handles[h.index()] = Some(h);
                     h.index() as u64
                 }
                 Err(_) => NONE,
             }
         } else {
-            77 + self.c.len() as u64
+            let i = (arg & 1) as usize;
+            match self.handles[i].take() {
+                Some(h) => match unsafe { self.c.remove(h, ReleaseMode::Default) } {
+                    Ok(_) => 50,
+                    Err(_) => 51,
+                },
+                None => 77,
+            }
         }
     }
     fn observe(&mut self) -> u64 {
-        self.c.len() as u64 ^ ((self.c.is_empty() as u64) << 8)
+        (self.c.is_empty() as u64) ^ ((self.handles[0].is_some() as u64) << 4) ^ ((self.handles[1].is_some() as u64) << 5)
     }
 }
 
